@@ -277,8 +277,9 @@ class Gen:
         o = {
             "framework": rng.choice(k["frameworks"]),
             "structure": rng.choice(k["structures"]),
+            # None = no comparators passed at all (ModelRegistry() with its shared class-level defaults / no --merge)
             "merge": rng.choice([["percent", "number"], ["exact"], ["percent_50", "number_2"], ["percent_100"],
-                                 ["number_1"], ["percent_70"], ["number_3", "exact"], ["percent_30"]]),
+                                 ["number_1"], ["percent_70"], ["number_3", "exact"], ["percent_30"], None, None]),
             "dict_keys_regex": rng.choice([[], [], [r"\d+"], [r"[a-z]\d*", r"\d+"], [r"\d+", r"[a-z]{1,2}"],
                                            [r"[a-h]\d", r"\d+", r"[a-z]+"], [r"\d"]]),
             "dict_keys_fields": rng.choice([[], [], [rng.choice(self.keys)]]),
